@@ -100,6 +100,9 @@ def run(tier, seed, ev):
         v2, g2 = c19.run_jobs("C18", built[0], built[1], sc, ev)
         viols += v2
         good += g2
+    # test / extract / print / dry run with every option, names decorated with hostile bytes: stdout = Cli!Output
+    import clicommon as CL
+    viols += CL.run("C18", tier, seed, ev, 30 if tier == "quick" else 400, hostile_names=True)
     for cfg in configs:
         ev.cls((cfg[0], cfg[1] < 0x20, cfg[1] >= 0x7f, cfg[2]))
     ev.add("traces_validated_against_impl", good)
